@@ -147,18 +147,18 @@ Lemma nonpositive_rejected T : T <= 0 -> e_eq_water_mk_raises T /\ e_eq_ice_mk_r
 Proof. intros H. unfold e_eq_water_mk_raises, e_eq_ice_mk_raises. tauto. Qed.
 
 (* ---- mixed phase ---- *)
+(* the three branch lemmas decide every `Rlt_dec` of the translated definition, whatever the order in which the
+   source applies its two masks *)
+Ltac mixed_cases := unfold e_eq_mixed_mk; cbv zeta;
+  repeat (match goal with |- context [Rlt_dec ?a ?b] => destruct (Rlt_dec a b) end);
+  try lra; try reflexivity; try ring.
 Lemma mixed_is_ice T : T < c_triple_point_water - 23 -> e_eq_mixed_mk T = e_eq_ice_mk T.
-Proof. intros H. unfold e_eq_mixed_mk. cbv zeta.
-  destruct (Rlt_dec c_triple_point_water T) as [H1|H1]; [lra|].
-  destruct (Rlt_dec T (c_triple_point_water - 23)) as [H2|H2]; [reflexivity|lra]. Qed.
+Proof. intros H. mixed_cases. Qed.
 Lemma mixed_is_liquid T : c_triple_point_water < T -> e_eq_mixed_mk T = e_eq_water_mk T.
-Proof. intros H. unfold e_eq_mixed_mk. cbv zeta.
-  destruct (Rlt_dec c_triple_point_water T) as [H1|H1]; [reflexivity|lra]. Qed.
+Proof. intros H. mixed_cases. Qed.
 Lemma mixed_blend T : c_triple_point_water - 23 <= T <= c_triple_point_water ->
   e_eq_mixed_mk T = e_eq_ice_mk T + (e_eq_water_mk T - e_eq_ice_mk T) * ((T - c_triple_point_water + 23) / 23) ^ 2.
-Proof. intros H. unfold e_eq_mixed_mk. cbv zeta.
-  destruct (Rlt_dec c_triple_point_water T) as [H1|H1]; [lra|].
-  destruct (Rlt_dec T (c_triple_point_water - 23)) as [H2|H2]; [lra|reflexivity]. Qed.
+Proof. intros H. mixed_cases. Qed.
 Lemma mixed_between T :
   Rmin (e_eq_ice_mk T) (e_eq_water_mk T) <= e_eq_mixed_mk T <= Rmax (e_eq_ice_mk T) (e_eq_water_mk T).
 Proof.
@@ -177,6 +177,167 @@ Lemma mixed_joint_ice : e_eq_mixed_mk (c_triple_point_water - 23) = e_eq_ice_mk 
 Proof. rewrite mixed_blend by lra. replace (c_triple_point_water - 23 - c_triple_point_water + 23) with 0 by ring. field. Qed.
 Lemma mixed_joint_liquid : e_eq_mixed_mk c_triple_point_water = e_eq_water_mk c_triple_point_water.
 Proof. rewrite mixed_blend by lra. replace (c_triple_point_water - c_triple_point_water + 23) with 23 by ring. field. Qed.
+
+(* ---- continuity of the mixed-phase formula on (0, +inf) ----
+   The translated definition is a nest of two `if Rlt_dec`; it is continuous because each branch formula
+   is, and the branches agree at the two switching temperatures (the joint-value equalities above). *)
+(* gluing: two functions continuous at x, agreeing at the switch a (only needed when x = a) *)
+Lemma glue_lt (f g : R -> R) a x : continuous f x -> continuous g x -> (x = a -> f a = g a) ->
+  continuous (fun t => if Rlt_dec t a then f t else g t) x.
+Proof.
+  intros Hf Hg Hj.
+  destruct (Rlt_dec x a) as [Hlt|Hge].
+  - apply (continuous_ext_loc _ f); [|exact Hf].
+    assert (Hpos : 0 < a - x) by lra.
+    exists (mkposreal _ Hpos). intros y Hy. simpl in Hy.
+    apply Rabs_def2 in Hy. change (minus y x) with (y - x) in Hy.
+    destruct (Rlt_dec y a); [reflexivity|lra].
+  - destruct (Rlt_dec a x) as [Hgt|Hle].
+    + apply (continuous_ext_loc _ g); [|exact Hg].
+      assert (Hpos : 0 < x - a) by lra.
+      exists (mkposreal _ Hpos). intros y Hy. simpl in Hy.
+      apply Rabs_def2 in Hy. change (minus y x) with (y - x) in Hy.
+      destruct (Rlt_dec y a); [lra|reflexivity].
+    + assert (Hxa : x = a) by lra. specialize (Hj Hxa). subst x.
+      intros P HP. unfold filtermap.
+      destruct (Rlt_dec a a) as [Habs|_]; [lra|].
+      assert (H1 : locally a (fun t => P (f t))) by (apply Hf; rewrite Hj; exact HP).
+      assert (H2 : locally a (fun t => P (g t))) by (apply Hg; exact HP).
+      generalize (filter_and _ _ H1 H2). apply filter_imp.
+      intros t [Ht1 Ht2]. destruct (Rlt_dec t a); assumption.
+Qed.
+Lemma glue_gt (f g : R -> R) a x : continuous f x -> continuous g x -> (x = a -> f a = g a) ->
+  continuous (fun t => if Rlt_dec a t then f t else g t) x.
+Proof.
+  intros Hf Hg Hj.
+  destruct (Rlt_dec a x) as [Hlt|Hge].
+  - apply (continuous_ext_loc _ f); [|exact Hf].
+    assert (Hpos : 0 < x - a) by lra.
+    exists (mkposreal _ Hpos). intros y Hy. simpl in Hy.
+    apply Rabs_def2 in Hy. change (minus y x) with (y - x) in Hy.
+    destruct (Rlt_dec a y); [reflexivity|lra].
+  - destruct (Rlt_dec x a) as [Hgt|Hle].
+    + apply (continuous_ext_loc _ g); [|exact Hg].
+      assert (Hpos : 0 < a - x) by lra.
+      exists (mkposreal _ Hpos). intros y Hy. simpl in Hy.
+      apply Rabs_def2 in Hy. change (minus y x) with (y - x) in Hy.
+      destruct (Rlt_dec a y); [lra|reflexivity].
+    + assert (Hxa : x = a) by lra. specialize (Hj Hxa). subst x.
+      intros P HP. unfold filtermap.
+      destruct (Rlt_dec a a) as [Habs|_]; [lra|].
+      assert (H1 : locally a (fun t => P (f t))) by (apply Hf; rewrite Hj; exact HP).
+      assert (H2 : locally a (fun t => P (g t))) by (apply Hg; exact HP).
+      generalize (filter_and _ _ H1 H2). apply filter_imp.
+      intros t [Ht1 Ht2]. destruct (Rlt_dec a t); assumption.
+Qed.
+
+(* the blend formula as a function of its own (it is what the code computes first, before the masks) *)
+Definition mixed_blend_fn (T : R) : R :=
+  e_eq_ice_mk T + (e_eq_water_mk T - e_eq_ice_mk T) * ((T - c_triple_point_water + 23) / 23) ^ 2.
+
+(* the three branch formulas are differentiable, hence continuous, on (0, +inf) *)
+(* side conditions (T <> 0, 0 < T, cosh <> 0) closed without interval arithmetic: the continuity theorems then rest
+   on the real-number axioms only *)
+Ltac side_pos := repeat split; try lra;
+  try (apply Rgt_not_eq; match goal with |- context [exp ?a + exp ?b] => generalize (exp_pos a) (exp_pos b); lra end).
+Lemma ice_ex_derive T : 0 < T -> ex_derive e_eq_ice_mk T.
+Proof. intros H. unfold e_eq_ice_mk. auto_derive. side_pos. Qed.
+Lemma liq_ex_derive T : 0 < T -> ex_derive e_eq_water_mk T.
+Proof. intros H. unfold e_eq_water_mk, tanh, sinh, cosh. auto_derive. side_pos. Qed.
+Lemma ice_continuous T : 0 < T -> continuous e_eq_ice_mk T.
+Proof. intros H. apply (ex_derive_continuous e_eq_ice_mk). exact (ice_ex_derive T H). Qed.
+Lemma liq_continuous T : 0 < T -> continuous e_eq_water_mk T.
+Proof. intros H. apply (ex_derive_continuous e_eq_water_mk). exact (liq_ex_derive T H). Qed.
+Lemma blend_continuous T : 0 < T -> continuous mixed_blend_fn T.
+Proof. intros H. unfold mixed_blend_fn.
+  apply (continuous_plus (U:=R_UniformSpace) (V:=R_NormedModule)); [exact (ice_continuous T H)|].
+  apply (continuous_mult (K:=R_AbsRing)).
+  - apply (continuous_minus (U:=R_UniformSpace) (V:=R_NormedModule)); [exact (liq_continuous T H)|exact (ice_continuous T H)].
+  - apply (ex_derive_continuous (fun T => ((T - c_triple_point_water + 23) / 23) ^ 2)). auto_derive. exact I.
+Qed.
+
+(* the translated definition, through the three branch lemmas only (robust against the order of the masks) *)
+Definition mixed_glued (t : R) : R :=
+  if Rlt_dec c_triple_point_water t then e_eq_water_mk t
+  else (fun u => if Rlt_dec u (c_triple_point_water - 23) then e_eq_ice_mk u else mixed_blend_fn u) t.
+Lemma mixed_as_glue T : e_eq_mixed_mk T = mixed_glued T.
+Proof. unfold mixed_glued. cbv beta.
+  destruct (Rlt_dec c_triple_point_water T) as [H1|H1]; [exact (mixed_is_liquid T H1)|].
+  destruct (Rlt_dec T (c_triple_point_water - 23)) as [H2|H2]; [exact (mixed_is_ice T H2)|].
+  unfold mixed_blend_fn. apply mixed_blend. lra. Qed.
+
+Lemma mixed_continuous T : 0 < T -> continuous e_eq_mixed_mk T.
+Proof.
+  intros H.
+  apply (continuous_ext mixed_glued); [intros t; symmetry; apply mixed_as_glue|].
+  unfold mixed_glued. apply glue_gt.
+  - exact (liq_continuous T H).
+  - apply glue_lt; [exact (ice_continuous T H)|exact (blend_continuous T H)|].
+    intros _. transitivity (e_eq_mixed_mk (c_triple_point_water - 23)); [symmetry; exact mixed_joint_ice|].
+    unfold mixed_blend_fn. apply mixed_blend. lra.
+  - intros _. cbv beta. destruct (Rlt_dec c_triple_point_water (c_triple_point_water - 23)) as [Habs|_]; [lra|].
+    transitivity (e_eq_mixed_mk c_triple_point_water); [symmetry; exact mixed_joint_liquid|].
+    unfold mixed_blend_fn. apply mixed_blend. lra.
+Qed.
+(* the same in the standard library's vocabulary, and spelled out with epsilon and delta *)
+Lemma mixed_continuity_pt T : 0 < T -> continuity_pt e_eq_mixed_mk T.
+Proof. intros H. apply continuity_pt_filterlim. exact (mixed_continuous T H). Qed.
+Lemma mixed_eps_delta T : 0 < T -> forall eps, 0 < eps -> exists delta, 0 < delta /\
+  forall T', Rabs (T' - T) < delta -> Rabs (e_eq_mixed_mk T' - e_eq_mixed_mk T) < eps.
+Proof.
+  intros H eps He. pose proof (mixed_continuous T H) as Hc.
+  apply (proj1 (filterlim_locally _ _)) with (eps := mkposreal eps He) in Hc.
+  destruct Hc as [d Hd]. exists d. split; [apply cond_pos|].
+  intros T' HT'. apply Hd. exact HT'.
+Qed.
+
+(* ---- strict monotonicity of the mixed-phase formula on [100, 400] K ----
+   ice branch and liquid branch: the two lemmas above; blend on [T_t - 23, T_t]: sign of the derivative of
+   mixed_blend_fn (>= 7.5 Pa/K numerically) by interval arithmetic with bisection; the three closed pieces
+   share their end points (joint-value equalities), so the pieces chain. *)
+Lemma blend_incr T1 T2 : c_triple_point_water - 23 <= T1 -> T1 < T2 -> T2 <= c_triple_point_water ->
+  mixed_blend_fn T1 < mixed_blend_fn T2.
+Proof.
+  intros H1 H12 H2.
+  apply (incr_function_le mixed_blend_fn (c_triple_point_water - 23) c_triple_point_water (Derive mixed_blend_fn)); simpl; try assumption.
+  - intros x Hx1 Hx2. apply Derive_correct. unfold c_triple_point_water in *.
+    unfold mixed_blend_fn, e_eq_ice_mk, e_eq_water_mk, tanh, sinh, cosh. auto_derive. side.
+  - intros x Hx1 Hx2. unfold c_triple_point_water in *.
+    erewrite is_derive_unique; [|unfold mixed_blend_fn, e_eq_ice_mk, e_eq_water_mk, tanh, sinh, cosh; auto_derive; [side|reflexivity]].
+    unfold c_triple_point_water. assert (Hb : 250.16 <= x <= 273.16) by lra. clear - Hb.
+    interval with (i_bisect x, i_depth 30, i_prec 50).
+Qed.
+
+Lemma incr_chain (f : R -> R) l c u :
+  (forall x y, l <= x -> x < y -> y <= c -> f x < f y) ->
+  (forall x y, c <= x -> x < y -> y <= u -> f x < f y) ->
+  forall x y, l <= x -> x < y -> y <= u -> f x < f y.
+Proof.
+  intros Hl Hu x y Hx Hxy Hy.
+  destruct (Rle_dec y c) as [Hyc|Hyc]; [apply Hl; assumption|].
+  destruct (Rle_dec c x) as [Hcx|Hcx]; [apply Hu; assumption|].
+  apply Rlt_trans with (f c); [apply Hl|apply Hu]; lra.
+Qed.
+
+Lemma mixed_is_ice_le T : T <= c_triple_point_water - 23 -> e_eq_mixed_mk T = e_eq_ice_mk T.
+Proof. intros [H|H]; [exact (mixed_is_ice T H)|rewrite H; exact mixed_joint_ice]. Qed.
+Lemma mixed_is_liquid_ge T : c_triple_point_water <= T -> e_eq_mixed_mk T = e_eq_water_mk T.
+Proof. intros [H|H]; [exact (mixed_is_liquid T H)|rewrite <- H; exact mixed_joint_liquid]. Qed.
+
+Lemma mixed_incr T1 T2 : 100 <= T1 -> T1 < T2 -> T2 <= 400 -> e_eq_mixed_mk T1 < e_eq_mixed_mk T2.
+Proof.
+  revert T1 T2.
+  apply (incr_chain e_eq_mixed_mk 100 (c_triple_point_water - 23) 400).
+  - intros x y Hx Hxy Hy. rewrite !mixed_is_ice_le by lra.
+    apply e_ice_incr; unfold c_triple_point_water in *; lra.
+  - apply (incr_chain e_eq_mixed_mk (c_triple_point_water - 23) c_triple_point_water 400).
+    + intros x y Hx Hxy Hy. rewrite !mixed_blend by lra. apply (blend_incr x y); assumption.
+    + intros x y Hx Hxy Hy. rewrite !mixed_is_liquid_ge by lra.
+      apply e_liq_incr; unfold c_triple_point_water in *; lra.
+Qed.
+Lemma mixed_pos T : 0 < e_eq_mixed_mk T.
+Proof. apply Rlt_le_trans with (2 := proj1 (mixed_between T)).
+  apply Rmin_glb_lt; [exact (e_ice_pos T)|exact (e_liq_pos T)]. Qed.
 
 (* ---- RH <-> VMR, for ANY saturation function ---- *)
 Lemma rh_vmr_inverse (e_eq : R -> R) RH p T : 0 < e_eq T -> 0 < p ->
